@@ -1,5 +1,196 @@
 import GnpyModel.Scalar
-/- model file Round (see DESIGN.md §2) -/
-namespace Gnpy
+/-
+Exact decimal rounding of a binary64 value given by its bit pattern (C18).
 
-end Gnpy
+`PrettyFloat.__repr__` (gnpy/tools/yang_convert_utils.py:72-96) prints a float with `f'{x:.{d}f}'`,
+which CPython evaluates *exactly*: the binary value m·2^e is rounded half-to-even to d fraction digits
+(correct rounding of the exact value, not of a decimal approximation), then trailing zeros are stripped
+("12.50" -> "12.5", "3.000" -> "3.0").  Everything here is integer arithmetic on Nat/Int, so what is
+proved is what is executed.
+
+Also: decimal string -> nearest binary64 (Python `float(str)`, used by `convert_back`).
+-/
+namespace Gnpy.Round
+
+/-- ⌊n/d⌉ with ties to the even quotient (`d > 0`) -/
+def roundHalfEvenDiv (n d : Nat) : Nat :=
+  let q := n / d
+  let r := n % d
+  if 2 * r < d then q
+  else if d < 2 * r then q + 1
+  else if q % 2 = 0 then q else q + 1
+
+/-- a finite binary64 value: (-1)^neg · man · 2^exp -/
+structure Dyadic where
+  neg : Bool
+  man : Nat
+  exp : Int
+  deriving Repr, DecidableEq
+
+/-- decode an IEEE-754 binary64 bit pattern; `none` for inf/nan -/
+def decode (bits : Nat) : Option Dyadic :=
+  let sign : Bool := decide ((bits / 2 ^ 63) % 2 = 1)
+  let be : Nat := (bits / 2 ^ 52) % 2048
+  let frac : Nat := bits % 2 ^ 52
+  if be = 2047 then none
+  else if be = 0 then some ⟨sign, frac, -1074⟩
+  else some ⟨sign, frac + 2 ^ 52, (be : Int) - 1075⟩
+
+/-- numerator and denominator of |x|·10^d for x = man·2^exp -/
+def scaled (x : Dyadic) (d : Nat) : Nat × Nat :=
+  if 0 ≤ x.exp then (x.man * 2 ^ x.exp.toNat * 10 ^ d, 1)
+  else (x.man * 10 ^ d, 2 ^ (-x.exp).toNat)
+
+/-- |x| rounded half-even to d fraction digits, as the integer R with |x| ≈ R / 10^d -/
+def roundDigits (x : Dyadic) (d : Nat) : Nat :=
+  let s := scaled x d
+  roundHalfEvenDiv s.1 s.2
+
+/-- decimal digits of a natural number, most significant first ("0" for 0) -/
+def natDigitsAux : Nat → Nat → List Char → List Char
+  | 0, _, acc => acc
+  | fuel + 1, n, acc =>
+    let acc' := Char.ofNat (48 + n % 10) :: acc
+    if n / 10 = 0 then acc' else natDigitsAux fuel (n / 10) acc'
+
+def natDigits (n : Nat) : List Char := natDigitsAux (n + 1) n []
+
+def padLeft (l : List Char) (w : Nat) : List Char := List.replicate (w - l.length) '0' ++ l
+
+/-- drop trailing '0' characters -/
+def stripZeros (l : List Char) : List Char := (l.reverse.dropWhile (· == '0')).reverse
+
+/-- `f'{x:.{d}f}'` followed by the zero stripping of `PrettyFloat.__repr__`, for the rounded
+    integer `r` (= |x|·10^d rounded) -/
+def render (neg : Bool) (r d : Nat) : String :=
+  let ip := natDigits (r / 10 ^ d)
+  let sgn := if neg then ['-'] else []
+  if d = 0 then String.ofList (sgn ++ ip)
+  else
+    let fp := stripZeros (padLeft (natDigits (r % 10 ^ d)) d)
+    let fp := if fp.isEmpty then ['0'] else fp
+    String.ofList (sgn ++ ip ++ ['.'] ++ fp)
+
+/-- `str(PrettyFloat(x, d))` on the `f'{x:.{d}f}'` branch; `none` for inf/nan -/
+def fmtBits (bits d : Nat) : Option String :=
+  match decode bits with
+  | none => none
+  | some x => some (render x.neg (roundDigits x d) d)
+
+/-- formatting of a Python int `i` through `PrettyFloat(i)` with d > 0 digits ("25" -> "25.0");
+    exact for |i| < 2^53 (the generators stay below) -/
+def fmtInt (i : Int) (d : Nat) : String := render (i < 0) (i.natAbs * 10 ^ d) d
+
+/-! ### decimal text -> value -/
+
+/-- parsed decimal: (-1)^neg · num / den · 10^e10   (den a power of ten) -/
+structure Dec where
+  neg : Bool
+  num : Nat
+  den : Nat
+  deriving Repr, DecidableEq
+
+def digitVal? (c : Char) : Option Nat :=
+  if '0' ≤ c ∧ c ≤ '9' then some (c.toNat - 48) else none
+
+def digitsVal : List Char → Option Nat
+  | [] => some 0
+  | cs => cs.foldlM (fun acc c => (digitVal? c).map (fun v => acc * 10 + v)) 0
+
+def splitAtChar (p : Char → Bool) : List Char → List Char × Option (List Char)
+  | [] => ([], none)
+  | c :: cs => if p c then ([], some cs) else
+    let r := splitAtChar p cs
+    (c :: r.1, r.2)
+
+/-- `[+-]?digits[.digits][(e|E)[+-]?digits]` (at least one digit in the mantissa) -/
+def parseDec (s : String) : Option Dec :=
+  let cs := s.toList
+  let (neg, cs) := match cs with
+    | '-' :: t => (true, t)
+    | '+' :: t => (false, t)
+    | t => (false, t)
+  let (mant, ex) := splitAtChar (fun c => c == 'e' || c == 'E') cs
+  let (ip, fp?) := splitAtChar (· == '.') mant
+  let fp := fp?.getD []
+  if ip.isEmpty && fp.isEmpty then none else
+  match digitsVal ip, digitsVal fp with
+  | some i, some f =>
+    let num := i * 10 ^ fp.length + f
+    let den := 10 ^ fp.length
+    match ex with
+    | none => some ⟨neg, num, den⟩
+    | some e =>
+      let (eneg, ed) := match e with
+        | '-' :: t => (true, t)
+        | '+' :: t => (false, t)
+        | t => (false, t)
+      if ed.isEmpty then none else
+      match digitsVal ed with
+      | none => none
+      | some k => if eneg then some ⟨neg, num, den * 10 ^ k⟩ else some ⟨neg, num * 10 ^ k, den⟩
+  | _, _ => none
+
+/-- Python `int(str)` for plain decimal integers -/
+def parseInt (s : String) : Option Int :=
+  let cs := s.toList
+  let (neg, cs) := match cs with
+    | '-' :: t => (true, t)
+    | '+' :: t => (false, t)
+    | t => (false, t)
+  if cs.isEmpty then none else
+  match digitsVal cs with
+  | none => none
+  | some n => some (if neg then -(n : Int) else (n : Int))
+
+/-- number of bits of n (0 for 0) -/
+def bitLen (n : Nat) : Nat := if n = 0 then 0 else Nat.log2 n + 1
+
+/-- nearest binary64 (ties to even) of the positive rational n/d, as (mantissa, exponent) with
+    value mantissa·2^exponent, 2^52 ≤ mantissa < 2^53 for normal numbers, exponent = -1074 for
+    subnormals; `none` on overflow -/
+def nearestDyadic (n d : Nat) : Option (Nat × Int) :=
+  if n = 0 then some (0, -1074) else
+  -- first guess of e with 2^52 ≤ (n/d)/2^e < 2^53
+  let e0 : Int := (bitLen n : Int) - (bitLen d : Int) - 53
+  let quot (e : Int) : Nat × Nat := if 0 ≤ e then (n, d * 2 ^ e.toNat) else (n * 2 ^ (-e).toNat, d)
+  let e1 : Int := let q := quot e0; if q.1 / q.2 < 2 ^ 52 then e0 - 1 else e0
+  let e2 : Int := let q := quot e1; if 2 ^ 53 ≤ q.1 / q.2 then e1 + 1 else e1
+  let e3 : Int := let q := quot e2; if 2 ^ 53 ≤ q.1 / q.2 then e2 + 1 else e2
+  let e : Int := if e3 < -1074 then -1074 else e3
+  let q := quot e
+  let m := roundHalfEvenDiv q.1 q.2
+  let (m, e) := if m = 2 ^ 53 then (2 ^ 52, e + 1) else (m, e)
+  if 971 < e then none else some (m, e)
+
+/-- encode (-1)^neg · m · 2^e (as produced by `nearestDyadic`) -/
+def encode (neg : Bool) (m : Nat) (e : Int) : Nat :=
+  let s := if neg then 2 ^ 63 else 0
+  if m < 2 ^ 52 then s + m
+  else s + ((e + 1075).toNat) * 2 ^ 52 + (m - 2 ^ 52)
+
+/-- Python `float(str)` for decimal text: bit pattern of the nearest double; overflow -> ±inf -/
+def parseFloatBits (s : String) : Option Nat :=
+  match parseDec s with
+  | none => none
+  | some x =>
+    match nearestDyadic x.num x.den with
+    | some (m, e) => some (encode x.neg m e)
+    | none => some ((if x.neg then 2 ^ 63 else 0) + 2047 * 2 ^ 52)
+
+/-- does the decimal text `s` denote a value whose nearest double is `bits`? (used for the
+    ≥ 17-digit `repr` branch: the string comes from the harness, the model only checks this) -/
+def parsesBackTo (s : String) (bits : Nat) : Bool := parseFloatBits s == some bits
+
+/-- the `repr` branch of `PrettyFloat.__repr__` (digits ≥ 17, repr has a '.' and no 'e'):
+    integer part, '.', the first min(d, len) fraction characters, zeros stripped -/
+def fmtRepr (r : String) (d : Nat) : String :=
+  let (ip, fp?) := splitAtChar (· == '.') r.toList
+  match fp? with
+  | none => r
+  | some fp =>
+    let f := stripZeros (fp.take d)
+    -- Python: rstrip('0') on the whole string then add '0' after a trailing '.'
+    if f.isEmpty then String.ofList (ip ++ ['.', '0']) else String.ofList (ip ++ ['.'] ++ f)
+
+end Gnpy.Round
